@@ -152,6 +152,43 @@ theorem assignFillA_elem_oob {cap : Nat} (d : V) (n i : Nat) (hc : cap < 2 ^ 64)
   have hcap : ¬ (0 = cap) := by omega
   simp [pushNA, pushBackA, emplaceBackA, rdArg, rd, hcap]
 
+/-! ### inplace_vector -/
+
+theorem ipvUncheckedA_val (cap : Nat) (d : V) (x : Nat) : ipvUncheckedA cap d (.val x) = ipvUnchecked cap d x := by
+  unfold ipvUncheckedA ipvUnchecked
+  rfl
+
+theorem ipvTryA_val (cap : Nat) (d : V) (x : Nat) : ipvTryA cap d (.val x) = ipvTry cap d x := by
+  unfold ipvTryA ipvTry
+  rw [ipvUncheckedA_val]
+
+theorem back_append' (d : V) (x : Nat) : back (d ++ [x]) = .ok x := by
+  unfold back
+  have h : (d ++ [x]).isEmpty = false := by cases d <;> rfl
+  rw [h]
+  simp only [Bool.false_eq_true, if_false]
+  have hl : (d ++ [x]).length - 1 = d.length := by simp
+  rw [hl]
+  exact rd_append_mid d x []
+
+theorem ipvUncheckedA_elem {cap : Nat} (d : V) (i : Nat) (hc : cap < 2 ^ 64) (h : d.length < cap) (hi : i < d.length) :
+    ipvUncheckedA cap d (.elem i) = .ok (d ++ [d[i]], d[i]) := by
+  unfold ipvUncheckedA
+  rw [if_neg (by omega), rdArg_elem hi]
+  simp only [ok_bind]
+  rw [setSize_ok hc (by omega)]
+  simp only [ok_bind]
+  rw [back_append']
+  rfl
+
+theorem ipvTryA_elem {cap : Nat} (d : V) (i : Nat) (hc : cap < 2 ^ 64) (h : d.length ≤ cap) (hi : i < d.length) :
+    ipvTryA cap d (.elem i) = .ok (if d.length = cap then (d, none) else (d ++ [d[i]], some d[i])) := by
+  unfold ipvTryA
+  split
+  · rfl
+  · rw [ipvUncheckedA_elem d i hc (by omega) hi]
+    rfl
+
 /-- (for contrast only, used in a sensitivity example of Props.lean) a single-element fast path of `insert(pos, x)`:
     move the tail `[pos, end)` up by one slot, then assign `x` into the gap — `x` is read *after* the shift -/
 def insertShiftLate (d : V) (pos : Nat) (a : Arg) : Except Err V := do
